@@ -343,6 +343,9 @@ def _run_variant(args):
         if kind == "break":
             hit = [r for r in failed_rules if r in expect] if expect else failed_rules
             status = "detected" if hit else ("detected-other-rule" if failed_rules else ("analysis-error-only" if err_rules else "missed"))
+        elif kind == "neutral-patch":
+            # independently written behaviour-preserving refactorings (tools/neutral_eval.py): reported, never an error of the thorough run
+            status = "patch-silent" if not failed_rules and not err_rules else "patch-alarm"
         else:
             status = "silent" if not failed_rules and not err_rules else "false-alarm"
         first = viols[0].instance[:160] if viols else (errs[0].instance[:160] if errs else "")
@@ -371,6 +374,12 @@ def thorough(ctx):
                         continue
                     if meta.get("property") == prop and meta.get("valid_seed"):
                         jobs.append((prop, "break", [], "", "", "", f"seeded change {d}", pf, base))
+        nd = os.path.join(core.VERIF, "neutral")
+        if os.path.isdir(nd):
+            for d in sorted(os.listdir(nd)):
+                pf = os.path.join(nd, d, "patch.diff")
+                if d.startswith(prop + "-N") and os.path.exists(pf):
+                    jobs.append((prop, "neutral-patch", [], "", "", "", f"stored refactoring {d}", pf, base))
         results = []
         if jobs:
             with ProcessPoolExecutor(max_workers=min(16, len(jobs))) as ex:
@@ -379,7 +388,9 @@ def thorough(ctx):
         det = sum(1 for r in results if r["status"] in ("detected", "detected-other-rule"))
         n_neutral = sum(1 for r in results if r["kind"] == "neutral")
         silent = sum(1 for r in results if r["status"] == "silent")
-        problems = [r for r in results if r["status"] in ("missed", "false-alarm", "recipe-error", "analysis-error-only")]
+        n_patch = sum(1 for r in results if r["kind"] == "neutral-patch")
+        patch_silent = sum(1 for r in results if r["status"] == "patch-silent")
+        problems = [r for r in results if r["status"] in ("missed", "false-alarm", "recipe-error", "analysis-error-only", "patch-alarm")]
         # a false alarm on a neutral variant, or a broken instance that goes unnoticed, makes the thorough run fail as analysis-broken
         ctx.rule = "selftest"
         for r in results:
@@ -389,8 +400,12 @@ def thorough(ctx):
                 ctx.error(f"self-test: broken variant `{r['desc']}` was not detected", None, r)
             elif r["status"] == "recipe-error":
                 ctx.note(f"self-test recipe no longer applies: {r['desc']}: {r.get('detail')}")
+            elif r["status"] == "patch-alarm":
+                ctx.note(f"stored refactoring still raises an alarm (checker defect, not a property verdict): {r['desc']}: {r.get('failed_rules')} {r.get('error_rules')}")
         return {
-            "summary": f"{det}/{n_break} broken variants detected, {silent}/{n_neutral} behaviour-preserving variants silent",
+            "summary": f"{det}/{n_break} broken variants detected, {silent}/{n_neutral} behaviour-preserving variants silent"
+                       + (f", {patch_silent}/{n_patch} stored refactoring patches silent" if n_patch else ""),
+            "refactoring_patches": n_patch, "refactoring_patches_silent": patch_silent,
             "variants": len(results), "broken_variants": n_break, "detected": det, "neutral_variants": n_neutral, "silent": silent,
             "not_ok": [{k: v for k, v in r.items() if k in ("desc", "status", "failed_rules", "error_rules", "detail")} for r in problems],
             "detected_list": [{"desc": r["desc"], "rules": r.get("failed_rules")} for r in results if r["status"].startswith("detected")],
